@@ -1,12 +1,14 @@
 (* C17_Model.v — executable model of
      internal/raw_http_body.go                       (WriteRawMessageContents, WriteRawStreamContents)
      internal/headers.go                             (AddHeaders, AddTrailers)
-     internal/app/referenceserver/raw_response.go    (rawResponder, rawResponseWriter, rawResponseRecorder)
+     internal/app/referenceserver/raw_response.go    (rawResponder, rawResponseWriter, rawResponseRecorder,
+                                                      firstReqCachingStream)
      internal/app/referenceclient/raw_request.go     (rawRequestSender.RoundTrip)
    as the code is after the four C17 repairs (nil-safe message contents, identity compressor
    does not close its destination, canonical trailer keys, IdempotentUnary recognised).
    The compressors are a Section variable; net/http's header map, the ResponseRecorder / server
-   commit rules and url.Values are small models of their own (modelled, not verified).
+   commit rules and net/url (Parse, String, RequestURI, escaping, Values) are small models of their own
+   (modelled, not verified; compared with the real functions through every c17.request case).
    No proofs here. *)
 From V Require Export Base.
 Open Scope N_scope.
@@ -284,6 +286,62 @@ Section Server.
     | None => normal
     end.
 End Server.
+
+(* ================= 4b. rawResponseRecorder.WrapStreamingHandler and firstReqCachingStream ================= *)
+(* one Receive on the underlying stream: a message (its request data, and whether its response
+   definition carries a raw response) or an error (0 = io.EOF) *)
+Inductive recv := RMsg (d : bytes) (raw : bool) | RErr (e : N).
+(* the underlying stream: a script of outcomes, then io.EOF for ever *)
+Definition under_recv (s : list recv) : recv * list recv :=
+  match s with [] => (RErr 0, []) | x :: r => (x, r) end.
+
+(* firstReqCachingStream: the request the interceptor has already received (or the error of that
+   Receive), handed out on the first Receive; afterwards the underlying stream *)
+Record cstream := mk_cstream { cs_req : option (bytes * bool); cs_err : option N; cs_under : list recv }.
+Definition cs_receive (st : cstream) : recv * cstream * nat :=      (* outcome, state, underlying calls made *)
+  match cs_err st with
+  | Some e => (RErr e, mk_cstream None None (cs_under st), O)
+  | None =>
+    match cs_req st with
+    | Some (d, raw) => (RMsg d raw, mk_cstream None None (cs_under st), O)
+    | None => let (x, r) := under_recv (cs_under st) in (x, mk_cstream None None r, 1%nat)
+    end
+  end.
+(* a handler that calls Receive n times: what it saw, and how often the underlying stream was asked *)
+Fixpoint cs_handler (n : nat) (st : cstream) : list recv * nat :=
+  match n with
+  | O => ([], O)
+  | S n' => match cs_receive st with
+            | (x, st', c) => let (seen, calls) := cs_handler n' st' in (x :: seen, (c + calls)%nat)
+            end
+  end.
+Fixpoint direct_handler (n : nat) (s : list recv) : list recv * nat :=
+  match n with
+  | O => ([], O)
+  | S n' => let (x, r) := under_recv s in let (seen, calls) := direct_handler n' r in (x :: seen, S calls)
+  end.
+(* the interceptor drains the request stream before a raw response: Receive until the first error *)
+Fixpoint drain (s : list recv) : nat :=
+  match s with
+  | [] => 1%nat
+  | RErr _ :: _ => 1%nat
+  | RMsg _ _ :: r => S (drain r)
+  end.
+
+(* WHandler: the handler ran (what it saw, underlying Receive calls in total);
+   WRaw: it did not (underlying calls, raw response stored?, error returned: 1 aborted / 2 normal response already started) *)
+Inductive wrapres := WHandler (seen : list recv) (calls : nat) | WRaw (calls : nat) (stored : bool) (ret : N).
+(* proc: the procedure is ClientStream, ServerStream or BidiStream (else the interceptor steps aside);
+   started: a normal response has already been started on the rawResponseWriter *)
+Definition wrap_streaming (proc started : bool) (script : list recv) (n : nat) : wrapres :=
+  if negb proc then let (seen, calls) := direct_handler n script in WHandler seen calls
+  else
+    let (x, r) := under_recv script in
+    match x with
+    | RMsg d true => if started then WRaw 1 false 2 else WRaw (S (drain r)) true 1
+    | RMsg d false => let (seen, calls) := cs_handler n (mk_cstream (Some (d, false)) None r) in WHandler seen (S calls)
+    | RErr e => let (seen, calls) := cs_handler n (mk_cstream (Some ([], false)) (Some e) r) in WHandler seen (S calls)
+    end.
 
 (* observation of the inner writer, httptest.ResponseRecorder.Result() *)
 Definition committed (w : iw) : N * hmap :=
@@ -707,6 +765,7 @@ Definition run_c17_writer (args : list sx) : sx :=
   | _ => sx_bad
   end.
 
+Definition mem_z (z : Z) (l : list Z) : bool := existsb (Z.eqb z) l.
 Definition un_rpc (z : Z) : option rpc :=
   match z with
   | 0%Z => Some RUnary | 1%Z | 2%Z => Some RIdempotent | 3%Z => Some RClientStream
@@ -747,6 +806,27 @@ Definition run_c17_live (args : list sx) : sx :=
     end
   | _ => sx_bad
   end.
+
+(* c17.cache: table(unused) proc started script n -> (1 (outcomes) calls) | (0 calls stored ret);
+   script / outcomes: (0 code) error, (1 #data raw) message *)
+Definition un_recv (s : sx) : option recv :=
+  match s with
+  | L [I 0%Z; I e] => Some (RErr (Z.to_N e))
+  | L [I 1%Z; B d; I r] => Some (RMsg d (negb (Z.eqb r 0)))
+  | _ => None
+  end.
+Definition sx_recv (x : recv) : sx :=
+  match x with RErr e => L [I 0%Z; sx_N e] | RMsg d r => L [I 1%Z; B d; sx_bool r] end.
+Definition run_c17_cache (args : list sx) : sx :=
+  or_bad (match args with
+  | [_; I proc; I started; script; n] =>
+    do script <- un_listof un_recv script; do n <- un_nat n;
+    if negb (mem_z proc [0; 3; 4; 5]%Z) || Nat.ltb 8 n then None else
+    ret (match wrap_streaming (negb (Z.eqb proc 0)) (negb (Z.eqb started 0)) script n with
+         | WHandler seen calls => L [I 1%Z; L (map sx_recv seen); sx_nat calls]
+         | WRaw calls stored ret => L [I 0%Z; sx_nat calls; sx_bool stored; sx_N ret]
+         end)
+  | _ => None end).
 
 Definition un_encq (s : sx) : option encq :=
   match s with
@@ -802,4 +882,5 @@ Definition c17_table : list (bytes * (list sx -> sx)) :=
     (bs "c17.stream", run_c17_stream);
     (bs "c17.writer", run_c17_writer);
     (bs "c17.live", run_c17_live);
-    (bs "c17.request", run_c17_request) ].
+    (bs "c17.request", run_c17_request);
+    (bs "c17.cache", run_c17_cache) ].
